@@ -12,10 +12,13 @@ import (
 	"fmt"
 	"io"
 	"net/http"
+	"os"
 	"sort"
 	"strings"
 	"sync"
 	"time"
+
+	"github.com/rs/zerolog"
 
 	"github.com/dadrus/heimdall/internal/cache"
 	"github.com/dadrus/heimdall/internal/config"
@@ -24,6 +27,7 @@ import (
 	"github.com/dadrus/heimdall/internal/rules/mechanisms"
 	"github.com/dadrus/heimdall/internal/rules/mechanisms/finalizers"
 	"github.com/dadrus/heimdall/internal/rules/mechanisms/subject"
+	"github.com/dadrus/heimdall/internal/watcher"
 	"github.com/dadrus/heimdall/verifharness/c10"
 )
 
@@ -595,7 +599,131 @@ func jwtJWK(p Pair, side int, base string, km *JWKMaterial) (evalFn, error) {
 
 // ---------------------------------------------------------------- jwt finalizer
 
-func jwtFinalizer(p Pair, side int, keyStore, keyStore2 string) (evalFn, error) {
+// listeners is a file watcher that only remembers who wants to hear about which file.
+type listeners struct {
+	mu sync.Mutex
+	l  map[string][]watcher.ChangeListener
+}
+
+func (w *listeners) Add(path string, cl watcher.ChangeListener) error {
+	w.mu.Lock()
+	defer w.mu.Unlock()
+
+	if w.l == nil {
+		w.l = map[string][]watcher.ChangeListener{}
+	}
+
+	w.l[path] = append(w.l[path], cl)
+
+	return nil
+}
+
+func (w *listeners) changed(path string) {
+	w.mu.Lock()
+	ls := append([]watcher.ChangeListener{}, w.l[path]...)
+	w.mu.Unlock()
+
+	for _, l := range ls {
+		l.OnChanged(zerolog.Nop())
+	}
+}
+
+// reloaded is one finalizer both sides of a signer_reload pair use: every evaluation first makes the
+// key store file hold its side's content and lets the signer reload it.
+type reloaded struct {
+	mu   sync.Mutex
+	m    finalizers.Finalizer
+	w    *listeners
+	path string
+	cur  int
+}
+
+func (r *reloaded) use(side int, content []byte) error {
+	r.mu.Lock()
+	defer r.mu.Unlock()
+
+	if r.cur == side {
+		return nil
+	}
+
+	if err := os.WriteFile(r.path, content, 0o600); err != nil {
+		return err
+	}
+
+	r.w.changed(r.path)
+	r.cur = side
+
+	return nil
+}
+
+// signerReload: the signer's key store is replaced (another key comes first, no key_id configured) and
+// reloaded between the two evaluations of one and the same finalizer.
+func signerReload(side int, keyStore, keyStore2 string, sc *c10.Script) (evalFn, error) {
+	src := keyStore
+	if side == 2 {
+		src = keyStore2
+	}
+
+	content, err := os.ReadFile(src)
+	if err != nil {
+		return nil, err
+	}
+
+	if side == 1 {
+		path := keyStore + fmt.Sprintf(".reload-%p.pem", sc)
+		if err := os.WriteFile(path, content, 0o600); err != nil {
+			return nil, err
+		}
+
+		w := &listeners{}
+
+		f, err := c10.NewFactoryWatched(&config.MechanismPrototypes{Finalizers: []config.Mechanism{{
+			ID: "m", Type: "jwt", Config: config.MechanismConfig{
+				"signer": signerConf("issA", "", path, true), "ttl": "30s", "claims": `{"c":"base"}`,
+			},
+		}}}, w)
+		if err != nil {
+			return nil, err
+		}
+
+		m, err := f.CreateFinalizer("", "m", nil)
+		if err != nil {
+			return nil, err
+		}
+
+		lateShared.Store(sc, &reloaded{m: m, w: w, path: path, cur: 1})
+	}
+
+	return func(cch cache.Cache) string {
+		v, ok := lateShared.Load(sc)
+		if !ok {
+			return "error: first side not built"
+		}
+
+		r := v.(*reloaded) //nolint:forcetypeassert
+		if err := r.use(side, content); err != nil {
+			return "error: " + err.Error()
+		}
+
+		ctx := c10.NewCtx(cch, nil, nil)
+		if err := r.m.Execute(ctx, subjectOf("u1", "r1")); err != nil {
+			return classify(err)
+		}
+
+		hdr, _, err := c10.ParseJWTUnverified(strings.TrimPrefix(ctx.Up.Get("Authorization"), "Bearer "))
+		if err != nil {
+			return "error"
+		}
+
+		return fmt.Sprintf("ok kid=%v", hdr["kid"])
+	}, nil
+}
+
+func jwtFinalizer(p Pair, side int, keyStore, keyStore2 string, sc *c10.Script) (evalFn, error) {
+	if p.Comp == "signer_reload" {
+		return signerReload(side, keyStore, keyStore2, sc)
+	}
+
 	kid, name, subID, role, out := "k1", "issA", "u1", "r1", "o1"
 
 	// signer_first_key: no key_id is configured on either side; the key stores differ in their first
@@ -823,6 +951,12 @@ func httpCache(p Pair, side int, base string) (evalFn, error) {
 	switch {
 	case is(p, side, "differ", "url"):
 		url = base + "/http/doc2"
+	case is(p, side, "differ", "url_case"):
+		url = base + "/http/Doc" // paths are case-sensitive: another resource
+	case is(p, side, "differ", "url_query_case"):
+		url = base + "/http/doc?user=Alice"
+	case p.Rel == "differ" && p.Comp == "url_query_case":
+		url = base + "/http/doc?user=alice"
 	case is(p, side, "differ", "method"):
 		method = http.MethodPut
 	case is(p, side, "differ", "authorization"):
